@@ -248,9 +248,9 @@ def apply_op(rng, t, op, allowed, fresh):
         return {i}
     if op == "kind":
         if e["kind"] == "f":
-            e.update(kind="l", content=b"was-file", exec=False)
+            e.update(kind="l", content=b"was-file-" + i.encode(), exec=False)
         elif e["kind"] == "l":
-            e.update(kind="f", content=b"was link\n", exec=False)
+            e.update(kind="f", content=b"was link " + i.encode() + b"\n", exec=False)
         else:
             return None
         return {i}
@@ -739,6 +739,12 @@ def evaluate(ctx, c, res, lines, impls, recs):
                 src = other if p in cho else this
                 if p in src:
                     exp[p] = dict(src[p])
+            paths = [p for p in exp if p != ROOT]
+            if any(q.startswith(p + "/") for p in paths for q in paths):
+                # a path is a file on one side and a directory on the other: the path-keyed union is not a tree
+                ctx.count("excluded:git-L4-file-directory-clash:" + ("raised" if res["exc"] else "conflicts" if res["conflicts"] else "clean"))
+                ctx.case([fmt, rel, "file-dir-clash", jsonable(c["base"]), jsonable(c["this"]), jsonable(c["other"])], nontrivial=False)
+                return
             if exp != idexp:
                 # one side renames/moves a directory, the other adds or keeps a changed path inside it
                 fam = F_GITDIR
